@@ -1,13 +1,517 @@
 /-
 C18 — Absent, null and value stay distinct; changes touch only named keys (I2).
+
+Property theorems and non-vacuity examples only (helpers live in Octave/Lemmas, the independent
+single-request spec in Octave/Spec).  Statements are over the executable model
+  Model/Changes (`_is_delete_sentinel`, `_normalize_value_for_ast`, `_apply_changes`, `_apply_mutations`, CLI loop)
+  Model/Emit    (`emit`, `emit_meta`, `emit_section`, `emit_block`, `emit_assignment`, `emit_value`, …)
+which the correspondence check ties to write.py / emitter.py / cli/main.py on every run.
+`E : Env` is the abstract scalar renderer (owned by the text engine); every theorem holds for all `E`.
 -/
-import Octave.Model.Changes
-import Octave.Model.Emit
-import Octave.Spec.Prune
+import Octave.Lemmas.Emit
+import Octave.Lemmas.Prune
+import Octave.Lemmas.Changes
 namespace Octave.C18
 open Octave
 
-/-- every emission site of emitter.py is dominated by an `is_absent` filter (or delegates to callers that are). -/
+/-! ## Facts about the regenerated tables (re-proved on every build) -/
+
+/-- every `emit_value` / `emit_assignment` call of emitter.py is dominated by an `is_absent` filter on the
+emitted expression, or hands the duty to callers that are in the table themselves. -/
 theorem gen_sites_all_guarded : Gen.absentSites.all (fun s => s.guard != .unguarded) = true := by decide
+
+/-- every emission site the model filters at has a filtered counterpart in the named function of the code:
+document level, block child, section child, META, nested META, list item (single- and multi-line),
+inline-map value (standalone and inside a multi-line list). -/
+theorem gen_sites_cover :
+    (["emit", "emit_block", "emit_section"].all fun f =>
+        Gen.absentSites.any fun s => s.fn == f && s.callee == "emit_assignment" && s.guard == .filtered) = true
+    ∧ ((Gen.absentSites.filter fun s => s.fn == "emit_meta" && s.guard == .filtered).length ≥ 2)
+    ∧ ((Gen.absentSites.filter fun s => s.fn == "emit_value" && s.guard == .filtered).length ≥ 2)
+    ∧ ((Gen.absentSites.filter fun s => s.fn == "_emit_multiline_list" && s.guard == .filtered).length ≥ 2)
+    ∧ Gen.emitValueRaisesOnAbsent = true := by decide
+
+/-- the DELETE sentinel the code tests for is the documented one, and equals the module constant. -/
+theorem gen_delete_sentinel :
+    Gen.deleteOpKey = "$op".toList ∧ Gen.deleteOpVal = "DELETE".toList
+    ∧ Gen.deleteSentinelConst.map (fun p => (p.1.toList, p.2.toList)) = [(Gen.deleteOpKey, Gen.deleteOpVal)] := by decide
+
+/-- the META dispatch constants: `META.` prefix, the slice removes exactly the prefix, `META` whole-block key. -/
+theorem gen_meta_dispatch :
+    Gen.metaPrefix = "META.".toList ∧ Gen.metaSliceStart = Gen.metaPrefix.length ∧ Gen.metaKey = "META".toList := by decide
+
+/-- `_normalize_value_for_ast` dispatches on list and dict (after the literal-zone pass-through) and wraps them. -/
+theorem gen_normalize_dispatch :
+    Gen.normalizeDispatch = ["LiteralZoneValue", "list", "dict"] ∧ Gen.normalizeWraps = ["InlineMap", "ListValue"] := by decide
+
+/-- the tri-state dispatch exists in both MCP paths (a dropped DELETE test / normalisation breaks this). -/
+theorem gen_tristate_dispatch :
+    Gen.applyChangesDeleteTests ≥ 4 ∧ Gen.applyChangesNormalizeCalls ≥ 3
+    ∧ Gen.applyMutationsDeleteTests ≥ 1 ∧ Gen.applyMutationsNormalizeCalls ≥ 1 := by decide
+
+/-! ## Clause 1 — a field that is absent is never written out -/
+
+/-- Known-finding class F40: META is non-empty and every META value is Absent (`emit` then appends the
+empty text of `emit_meta`, i.e. a blank line).  `Gen.emitChecksMetaText` is regenerated from `emit`. -/
+def KF_meta_all_absent (d : Doc) : Bool := metaAllAbsent d.«meta»
+
+/-- MASTER: emitting a document = emitting the document with EVERY Absent site removed (top-level,
+block and section children at any depth, META entries, nested META entries, list items and inline-map
+values at any depth), for every renderer.  Partial: outside F40 (or once `emit` checks the META text). -/
+theorem C18_absent_silent_partial (E : Env) (d : Doc)
+    (h : Gen.emitChecksMetaText = true ∨ KF_meta_all_absent d = false) :
+    emitLines E (pruneDoc d) = emitLines E d := by
+  unfold emitLines pruneDoc
+  simp only [envelope, metaBlock_prune E d.«meta» h, emitNodes_prune E .top d.nodes 0]
+
+theorem C18_absent_silent_text_partial (E : Env) (d : Doc)
+    (h : Gen.emitChecksMetaText = true ∨ KF_meta_all_absent d = false) :
+    emitText E (pruneDoc d) = emitText E d := by
+  unfold emitText; rw [C18_absent_silent_partial E d h]
+
+/-- two documents that differ only by Absent sites (anywhere, any number) have the same text. -/
+theorem C18_absent_sites_any_depth_partial (E : Env) (d₁ d₂ : Doc) (hp : pruneDoc d₁ = pruneDoc d₂)
+    (h₁ : Gen.emitChecksMetaText = true ∨ KF_meta_all_absent d₁ = false)
+    (h₂ : Gen.emitChecksMetaText = true ∨ KF_meta_all_absent d₂ = false) :
+    emitText E d₁ = emitText E d₂ := by
+  rw [← C18_absent_silent_text_partial E d₁ h₁, ← C18_absent_silent_text_partial E d₂ h₂, hp]
+
+/-- site: top-level assignment (with its leading/trailing comments). -/
+theorem C18_absent_silent_top (E : Env) (d : Doc) (pre post : List Node) (lead : List Str) (k : Str) (trail : Option Str) :
+    emitLines E { d with nodes := pre ++ .assign lead k .absent trail :: post } = emitLines E { d with nodes := pre ++ post } := by
+  simp [emitLines, envelope, emitNodes_append, emitNodes, emitNode]
+
+/-- site: child of a block, at whatever depth the block itself sits (`p`, `ind` arbitrary). -/
+theorem C18_absent_silent_block_child (E : Env) (p : Parent) (ind : Nat) (blead : List Str) (bkey : Str) (target : Option Str)
+    (pre post : List Node) (lead : List Str) (k : Str) (trail : Option Str) :
+    emitNode E p (.block blead bkey target (pre ++ .assign lead k .absent trail :: post)) ind
+      = emitNode E p (.block blead bkey target (pre ++ post)) ind := by
+  simp [emitNode, emitNodes_append, emitNodes]
+
+/-- site: child of a section. -/
+theorem C18_absent_silent_section_child (E : Env) (p : Parent) (ind : Nat) (slead : List Str) (id skey : Str) (ann : Option Str)
+    (pre post : List Node) (lead : List Str) (k : Str) (trail : Option Str) :
+    emitNode E p (.sect slead id skey ann (pre ++ .assign lead k .absent trail :: post)) ind
+      = emitNode E p (.sect slead id skey ann (pre ++ post)) ind := by
+  simp [emitNode, emitNodes_append, emitNodes]
+
+/-- site: list item (single-line and multi-line layouts, and the choice between them). -/
+theorem C18_absent_silent_list_item (E : Env) (pre post : List Val) (ind : Nat) :
+    emitValue E (.list (pre ++ .absent :: post)) ind = emitValue E (.list (pre ++ post)) ind := by
+  rw [← emitValue_prune E (.list (pre ++ .absent :: post)), ← emitValue_prune E (.list (pre ++ post))]
+  simp [pruneVal, pruneItems_site]
+
+/-- site: inline-map value. -/
+theorem C18_absent_silent_map_value (E : Env) (pre post : List (Str × Val)) (k : Str) (ind : Nat) :
+    emitValue E (.map (pre ++ (k, .absent) :: post)) ind = emitValue E (.map (pre ++ post)) ind := by
+  rw [← emitValue_prune E (.map (pre ++ (k, .absent) :: post)), ← emitValue_prune E (.map (pre ++ post))]
+  simp [pruneVal, prunePairs_site]
+
+/-- site: entry of a nested META dict. -/
+theorem C18_absent_silent_nested_meta (E : Env) (pre post p1 p2 : List (Str × Val)) (k j : Str) :
+    metaBlock E (pre ++ (k, .dict (p1 ++ (j, .absent) :: p2)) :: post) = metaBlock E (pre ++ (k, .dict (p1 ++ p2)) :: post) := by
+  have h : metaLines E (pre ++ (k, .dict (p1 ++ (j, .absent) :: p2)) :: post) = metaLines E (pre ++ (k, .dict (p1 ++ p2)) :: post) := by
+    rw [← metaLines_prune E (pre ++ (k, .dict (p1 ++ (j, .absent) :: p2)) :: post), pruneMeta_nested_site, metaLines_prune]
+  simp [metaBlock, h]
+
+/-- site: META entry.  Partial (F40): the entry must not be the only one, unless `emit` checks the text. -/
+theorem C18_absent_silent_meta_partial (E : Env) (pre post : List (Str × Val)) (k : Str)
+    (hg : Gen.emitChecksMetaText = true ∨ pre ++ post ≠ []) :
+    metaBlock E (pre ++ (k, .absent) :: post) = metaBlock E (pre ++ post) := by
+  have h : metaLines E (pre ++ (k, .absent) :: post) = metaLines E (pre ++ post) := by
+    rw [← metaLines_prune E (pre ++ (k, .absent) :: post), pruneMeta_site, metaLines_prune]
+  unfold metaBlock
+  rw [h]
+  by_cases he : pre ++ post = []
+  · have hl : metaLines E (pre ++ post) = [] := by rw [he]; rfl
+    rcases hg with hg | hg
+    · simp [he, hg, metaLines]
+    · exact absurd he hg
+  · have h1 : (pre ++ (k, Val.absent) :: post).isEmpty = false := by cases pre <;> rfl
+    have h2 : (pre ++ post).isEmpty = false := by
+      cases hpp : pre ++ post with
+      | nil => exact absurd hpp he
+      | cons _ _ => rfl
+    simp [h1, h2]
+
+/-- F40 on its witness: with the code as it stands the only-entry case DOES differ (a blank line). -/
+theorem C18_KF_meta_all_absent (hcode : Gen.emitChecksMetaText = false) (E : Env) (k : Str) :
+    metaBlock E [(k, .absent)] = [[]] ∧ metaBlock E [] = [] ∧ KF_meta_all_absent { «meta» := [(k, .absent)] } = true := by
+  simp [metaBlock, metaLines, hcode, KF_meta_all_absent, metaAllAbsent, pruneMeta]
+
+/-- no emission site hands Absent to the renderer (Python would raise ValueError there): two renderers
+that agree off Absent produce the same text for every document. -/
+theorem C18_absent_never_rendered (E E' : Env) (h : EnvAgree E E') (d : Doc) : emitText E d = emitText E' d := by
+  unfold emitText emitLines metaBlock
+  rw [metaLines_env h, emitNodes_env h]
+
+/-! ## Clause 2 — null, "" and [] stay pairwise distinct; Absent renders nothing -/
+
+/-- what the three "empty" values render to. -/
+theorem C18_tristate_values (E : Env) (ind : Nat) :
+    emitValue E .null ind = E.scalar .null ∧ emitValue E (.str []) ind = E.scalar (.str []) ∧ emitValue E (.list []) ind = ['[', ']'] := by
+  simp [emitValue]
+
+/-- at any assignment site (top level / block child / section child, any indent, any comments, any key):
+the line blocks of `null`, `""` and `[]` are pairwise different and non-empty, the block of Absent is empty —
+given only that the renderer keeps `null`, `""` and `[]` apart and quotes the empty string. -/
+theorem C18_tristate (E : Env) (p : Parent) (ind : Nat) (lead : List Str) (key : Str) (trail : Option Str)
+    (h1 : E.scalar .null ≠ E.scalar (.str [])) (h2 : E.scalar .null ≠ ['[', ']']) (h3 : E.scalar (.str []) ≠ ['[', ']'])
+    (hq : (E.scalar (.str [])).head? = some '"') :
+    let L := fun v => emitNode E p (.assign lead key v trail) ind
+    L .null ≠ L (.str []) ∧ L .null ≠ L (.list []) ∧ L (.str []) ≠ L (.list []) ∧ L .absent = []
+      ∧ L .null ≠ [] ∧ L (.str []) ≠ [] ∧ L (.list []) ≠ [] := by
+  have key_line : ∀ (pre : List Str) (pfx a b t : Str), a ≠ b → pre ++ [pfx ++ a ++ t] ≠ pre ++ [pfx ++ b ++ t] := by
+    intro pre pfx a b t hab h
+    have h' := List.append_cancel_left h
+    simp only [List.cons.injEq, and_true] at h'
+    exact hab (List.append_cancel_left (List.append_cancel_right h'))
+  have hfq : (E.alwaysQuote key && !(some '"' == some '"')) = false := by simp
+  simp only [emitNode, emitAssign, emitValue, forceQuote, hq, hfq, Bool.false_eq_true, List.isEmpty_nil, ↓reduceIte]
+  refine ⟨key_line _ _ _ _ _ h1, key_line _ _ _ _ _ h2, key_line _ _ _ _ _ h3, trivial, ?_, ?_, ?_⟩ <;> simp
+
+/-! ## Clause 3 — frame: keys not named keep their line blocks and their order -/
+
+/-- `emit` is the concatenation of per-node line blocks: this is what "the lines of a key" means. -/
+theorem C18_emit_decomposes (E : Env) (d : Doc) :
+    emitLines E d = envelope d ++ metaBlock E d.«meta» ++ (if d.sep then [['-', '-', '-']] else [])
+      ++ d.nodes.flatMap (fun n => emitNode E .top n 0) ++ leadLines d.trailing 0 ++ [endLine] := by
+  simp [emitLines, emitNodes_eq_flatMap]
+
+/-- FRAME (top level), histories of any length: the nodes that are not assignments with a named key are
+the same nodes, in the same relative order — hence so are their line blocks. -/
+theorem C18_frame (d : Doc) (rs : List Request) (named : Str → Bool)
+    (h : ∀ c ∈ rs.flatMap (·.changes), ∀ k r, topEffect c = some (k, r) → named k = true) :
+    (applyRequests d rs).nodes.filter (unnamedNode named) = d.nodes.filter (unnamedNode named) := by
+  rw [applyRequests_nodes]
+  generalize rs.flatMap (·.changes) = cs at h
+  induction cs generalizing d with
+  | nil => rfl
+  | cons c rest ih =>
+    simp only [List.foldl_cons]
+    have hc := applyTopEffect_filter_unnamed named d.nodes (topEffect c) (fun k r e => h c (by simp) k r e)
+    have := ih { d with nodes := applyTopEffect d.nodes (topEffect c) } (fun c' hc' => h c' (by simp [hc']))
+    simp only at this
+    rw [this, hc]
+
+theorem C18_frame_lines (E : Env) (d : Doc) (rs : List Request) (named : Str → Bool)
+    (h : ∀ c ∈ rs.flatMap (·.changes), ∀ k r, topEffect c = some (k, r) → named k = true) :
+    ((applyRequests d rs).nodes.filter (unnamedNode named)).map (fun n => emitNode E .top n 0)
+      = (d.nodes.filter (unnamedNode named)).map (fun n => emitNode E .top n 0) := by
+  rw [C18_frame d rs named h]
+
+/-- FRAME (META): entries whose field is not named keep value and relative order (a whole-META DELETE
+names every field). -/
+theorem C18_frame_meta (d : Doc) (rs : List Request) (named : Str → Bool)
+    (h : ∀ op ∈ rs.flatMap metaOps, ∀ f, op.names f = true → named f = true) :
+    (applyRequests d rs).«meta».filter (fun p => !named p.1) = d.«meta».filter (fun p => !named p.1) := by
+  rw [applyRequests_meta]
+  generalize rs.flatMap metaOps = ops at h
+  generalize d.«meta» = m
+  induction ops generalizing m with
+  | nil => rfl
+  | cons op rest ih =>
+    simp only [List.foldl_cons]
+    rw [ih (fun op' h' => h op' (by simp [h'])) (runMetaOp m op), runMetaOp_filter_unnamed named m op (h op (by simp))]
+
+/-- FRAME (envelope): name, grammar sentinel, frontmatter, separator and trailing comments never change. -/
+theorem C18_frame_envelope (d : Doc) (rs : List Request) :
+    envelope (applyRequests d rs) = envelope d ∧ (applyRequests d rs).sep = d.sep ∧ (applyRequests d rs).trailing = d.trailing := by
+  obtain ⟨h1, h2, h3, h4, h5⟩ := applyRequests_envelope d rs
+  simp [envelope, h1, h2, h3, h4, h5]
+
+/-- omit: a request that names nothing leaves the whole document (hence the whole text) unchanged. -/
+theorem C18_omit (E : Env) (d : Doc) : emitText E (applyRequest d {}) = emitText E d := by
+  simp [applyRequest, applyChanges, applyMutations]
+
+/-! ## Clause 4 — DELETE / null / value on a top-level key -/
+
+/-- DELETE removes EVERY top-level assignment with that key (all occurrences of a duplicated key) and
+nothing else: the other nodes keep their order; META is untouched.  (Blocks / sections with that key are
+not assignments and stay.) -/
+theorem C18_delete (d : Doc) (k : Str) (v : JVal) (hk : classify k = .top) (hv : isDel v = true) :
+    (applyChange d (k, v)).nodes = d.nodes.filter (fun n => !Node.isAssignKey k n)
+      ∧ hasAssign k (applyChange d (k, v)).nodes = false
+      ∧ lookupTop k (applyChange d (k, v)).nodes = none
+      ∧ (applyChange d (k, v)).«meta» = d.«meta» := by
+  have hn : (applyChange d (k, v)).nodes = delTop k d.nodes := by simp [applyChange, hk, hv]
+  refine ⟨by rw [hn]; rfl, by rw [hn]; exact hasAssign_delTop_self k _, by rw [hn]; exact lookupTop_delTop_self k _, ?_⟩
+  simp [applyChange, hk, hv]
+
+/-- null: the key is present afterwards and its value is `null` (not Absent, not `""`, not `[]`). -/
+theorem C18_null (d : Doc) (k : Str) (hk : classify k = .top) :
+    lookupTop k (applyChange d (k, .null)).nodes = some .null := by
+  simp [applyChange, hk, isDel, normalize, lookupTop_setTop_self]
+
+/-- value: afterwards the (first) assignment with that key carries exactly the normalised value. -/
+theorem C18_set_value (d : Doc) (k : Str) (v : JVal) (hk : classify k = .top) (hv : isDel v = false) :
+    lookupTop k (applyChange d (k, v)).nodes = some (normalize v) := by
+  simp [applyChange, hk, hv, lookupTop_setTop_self]
+
+/-- value, key present: the FIRST occurrence is updated in place — same position, same leading and
+trailing comments; later occurrences of a duplicated key are left as they are. -/
+theorem C18_set_in_place (d : Doc) (k : Str) (v : JVal) (hk : classify k = .top) (hv : isDel v = false)
+    (pre post : List Node) (lead : List Str) (old : Val) (trail : Option Str)
+    (hd : d.nodes = pre ++ .assign lead k old trail :: post) (hpre : hasAssign k pre = false) :
+    (applyChange d (k, v)).nodes = pre ++ .assign lead k (normalize v) trail :: post := by
+  have : setFirst k (normalize v) d.nodes = some (pre ++ .assign lead k (normalize v) trail :: post) :=
+    (setFirst_some_iff k _ _ _).mpr ⟨pre, lead, old, trail, post, hd, hpre, rfl⟩
+  simp [applyChange, hk, hv, setTop, this]
+
+/-- value, key not present: a new assignment without comments is appended at the end. -/
+theorem C18_set_appended (d : Doc) (k : Str) (v : JVal) (hk : classify k = .top) (hv : isDel v = false)
+    (hno : hasAssign k d.nodes = false) :
+    (applyChange d (k, v)).nodes = d.nodes ++ [.assign [] k (normalize v) none] := by
+  have : setFirst k (normalize v) d.nodes = none := (setFirst_none_iff k _ _).mpr hno
+  simp [applyChange, hk, hv, setTop, this]
+
+/-- the three stored states are pairwise different values of the AST, and none is Absent. -/
+theorem C18_states_distinct :
+    normalize .null = .null ∧ normalize (.str []) = .str [] ∧ normalize (.list []) = .list []
+      ∧ Val.null ≠ Val.str [] ∧ Val.null ≠ Val.list [] ∧ Val.str [] ≠ Val.list []
+      ∧ isDel .null = false ∧ isDel (.str []) = false ∧ isDel (.list []) = false := by
+  simp [normalize, normalizeList, isDel]
+
+/-! ## Clause 5 — META.X and META{…} merge -/
+
+/-- `META.X` with a value (or null): field X gets exactly that value; an existing field keeps its
+position, a new one goes last; every other field keeps value and position; the nodes are untouched. -/
+theorem C18_meta_merge_field (d : Doc) (key f : Str) (v : JVal) (hk : classify key = .metaField f) (hv : isDel v = false) :
+    let d' := applyChange d (key, v)
+    d'.«meta» = dictSet d.«meta» f (normalize v)
+      ∧ dictGet d'.«meta» f = some (normalize v)
+      ∧ (∀ j, j ≠ f → dictGet d'.«meta» j = dictGet d.«meta» j)
+      ∧ dictKeys d'.«meta» = (if f ∈ dictKeys d.«meta» then dictKeys d.«meta» else dictKeys d.«meta» ++ [f])
+      ∧ d'.nodes = d.nodes := by
+  have hm : (applyChange d (key, v)).«meta» = dictSet d.«meta» f (normalize v) := by simp [applyChange, hk, metaStep, hv]
+  refine ⟨hm, by rw [hm]; exact dictGet_dictSet_self _ _ _, fun j hj => by rw [hm]; exact dictGet_dictSet_ne _ _ _ _ hj,
+    by rw [hm]; exact dictKeys_dictSet _ _ _, by simp [applyChange, hk]⟩
+
+/-- `META.X` with the DELETE sentinel: field X is gone, the others keep value and relative order. -/
+theorem C18_meta_delete_field (d : Doc) (key f : Str) (v : JVal) (hk : classify key = .metaField f) (hv : isDel v = true) :
+    let d' := applyChange d (key, v)
+    dictGet d'.«meta» f = none
+      ∧ (∀ j, j ≠ f → dictGet d'.«meta» j = dictGet d.«meta» j)
+      ∧ dictKeys d'.«meta» = (dictKeys d.«meta»).filter (fun j => !(j == f))
+      ∧ d'.nodes = d.nodes := by
+  have hm : (applyChange d (key, v)).«meta» = dictDel d.«meta» f := by simp [applyChange, hk, metaStep, hv]
+  refine ⟨by rw [hm]; exact dictGet_dictDel_self _ _, fun j hj => by rw [hm]; exact dictGet_dictDel_ne _ _ _ hj,
+    by rw [hm]; exact dictKeys_dictDel _ _, by simp [applyChange, hk]⟩
+
+/-- `META{…}` (not the sentinel): a MERGE — every field not mentioned in the request dict keeps its value,
+and the unmentioned entries keep their relative order; mentioned fields end up as the spec fold says. -/
+theorem C18_meta_merge (d : Doc) (key : Str) (pairs : List (Str × JVal)) (hk : classify key = .metaWhole)
+    (hnd : isDel (.obj pairs) = false) :
+    let d' := applyChange d (key, .obj pairs)
+    let mentioned := fun f => pairs.any (fun p => p.1 == f)
+    d'.«meta».filter (fun p => !mentioned p.1) = d.«meta».filter (fun p => !mentioned p.1)
+      ∧ (∀ f, mentioned f = false → dictGet d'.«meta» f = dictGet d.«meta» f)
+      ∧ (∀ f, dictGet d'.«meta» f = (pairs.map (fun p => MetaOp.step p.1 p.2)).foldl (specMeta f) (dictGet d.«meta» f))
+      ∧ d'.nodes = d.nodes := by
+  intro d' mentioned
+  have hm : d'.«meta» = (pairs.map (fun p => MetaOp.step p.1 p.2)).foldl runMetaOp d.«meta» := by
+    simp [d', applyChange, hk, hnd, foldl_metaStep_eq]
+  have hspec : ∀ (ops : List MetaOp) (m : List (Str × Val)) (f : Str),
+      dictGet (ops.foldl runMetaOp m) f = ops.foldl (specMeta f) (dictGet m f) := by
+    intro ops
+    induction ops with
+    | nil => intros; rfl
+    | cons op rest ih => intro m f; simp only [List.foldl_cons]; rw [ih, dictGet_runMetaOp]
+  have hframe : ∀ (ps : List (Str × JVal)) (m : List (Str × Val)), (∀ p ∈ ps, mentioned p.1 = true) →
+      ((ps.map (fun p => MetaOp.step p.1 p.2)).foldl runMetaOp m).filter (fun p => !mentioned p.1) = m.filter (fun p => !mentioned p.1) := by
+    intro ps
+    induction ps with
+    | nil => intros; rfl
+    | cons p rest ih =>
+      intro m hps
+      simp only [List.map_cons, List.foldl_cons]
+      rw [ih _ (fun q hq => hps q (by simp [hq]))]
+      exact runMetaOp_filter_unnamed mentioned m _ (fun f hf => by
+        have : p.1 = f := by simpa [MetaOp.names] using hf
+        rw [← this]; exact hps p (by simp))
+  have hment : ∀ p ∈ pairs, mentioned p.1 = true := fun p hp => by
+    simp only [mentioned, List.any_eq_true]; exact ⟨p, hp, by simp⟩
+  refine ⟨by rw [hm]; exact hframe pairs d.«meta» hment, ?_, fun f => by rw [hm]; exact hspec _ _ f, by simp [d', applyChange, hk, hnd]⟩
+  intro f hf
+  rw [hm, hspec]
+  have : ∀ (ps : List (Str × JVal)) (acc : Option Val), (∀ p ∈ ps, p.1 ≠ f) →
+      (ps.map (fun p => MetaOp.step p.1 p.2)).foldl (specMeta f) acc = acc := by
+    intro ps
+    induction ps with
+    | nil => intros; rfl
+    | cons p rest ih =>
+      intro acc hne
+      simp only [List.map_cons, List.foldl_cons, specMeta, hne p (by simp), ↓reduceIte]
+      exact ih acc (fun q hq => hne q (by simp [hq]))
+  apply this
+  intro p hp e
+  have : mentioned f = true := by simp only [mentioned, List.any_eq_true]; exact ⟨p, hp, by simp [e]⟩
+  rw [hf] at this; cases this
+
+/-- `META` with the DELETE sentinel clears META and nothing else. -/
+theorem C18_meta_delete_all (d : Doc) (key : Str) (pairs : List (Str × JVal)) (hk : classify key = .metaWhole)
+    (hd : isDel (.obj pairs) = true) :
+    (applyChange d (key, .obj pairs)).«meta» = [] ∧ (applyChange d (key, .obj pairs)).nodes = d.nodes := by
+  simp [applyChange, hk, hd]
+
+/-! ## Clause 6 — histories: applying r₁ … rₙ = folding the single-request spec (any n) -/
+
+/-- the value of top-level key `k` after any history is the fold of `specTop k` over all entries of all
+requests, in order: the last entry naming `k` decides (DELETE ↦ absent, null ↦ null, value ↦ that value),
+and a key no entry names keeps its value. -/
+theorem C18_sequence (d : Doc) (rs : List Request) (k : Str) :
+    lookupTop k (applyRequests d rs).nodes = (rs.flatMap (·.changes)).foldl (specTop k) (lookupTop k d.nodes) := by
+  rw [applyRequests_nodes]
+  generalize rs.flatMap (·.changes) = cs
+  generalize d.nodes = ns
+  induction cs generalizing ns with
+  | nil => rfl
+  | cons c rest ih => simp only [List.foldl_cons]; rw [ih, lookupTop_applyTopEffect]
+
+/-- the value of META field `f` after any history is the fold of `specMeta f` over all META operations
+(`META.X`, entries of `META{…}`, whole-META DELETE, `mutations`) of all requests, in order. -/
+theorem C18_sequence_meta (d : Doc) (rs : List Request) (f : Str) :
+    dictGet (applyRequests d rs).«meta» f = (rs.flatMap metaOps).foldl (specMeta f) (dictGet d.«meta» f) := by
+  rw [applyRequests_meta]
+  generalize rs.flatMap metaOps = ops
+  generalize d.«meta» = m
+  induction ops generalizing m with
+  | nil => rfl
+  | cons op rest ih => simp only [List.foldl_cons]; rw [ih, dictGet_runMetaOp]
+
+/-- a history is the history of its prefix followed by the history of its suffix (the tool is stateless). -/
+theorem C18_sequence_concat (d : Doc) (rs₁ rs₂ : List Request) :
+    applyRequests d (rs₁ ++ rs₂) = applyRequests (applyRequests d rs₁) rs₂ := by
+  simp [applyRequests, List.foldl_append]
+
+/-- a key that no request of the history names reads the same before and after. -/
+theorem C18_sequence_unnamed (d : Doc) (rs : List Request) (k : Str)
+    (h : ∀ c ∈ rs.flatMap (·.changes), ∀ k' r, topEffect c = some (k', r) → k' ≠ k) :
+    lookupTop k (applyRequests d rs).nodes = lookupTop k d.nodes := by
+  rw [C18_sequence]
+  generalize rs.flatMap (·.changes) = cs at h
+  generalize lookupTop k d.nodes = acc
+  induction cs generalizing acc with
+  | nil => rfl
+  | cons c rest ih =>
+    simp only [List.foldl_cons]
+    have : specTop k acc c = acc := by
+      unfold specTop
+      cases he : topEffect c with
+      | none => rfl
+      | some e => obtain ⟨k', r⟩ := e; simp [h c (by simp) k' r he]
+    rw [this]
+    exact ih (fun c' hc' => h c' (by simp [hc'])) acc
+
+/-! ## Negative — F28: the CLI `--changes` loop has no tri-state dispatch -/
+
+/-- the DELETE sentinel as a request value. -/
+def deleteSentinel : JVal := .obj [(Gen.deleteOpKey, .str Gen.deleteOpVal)]
+
+/-- F28, for EVERY document and every ordinary key: after the CLI loop the key is PRESENT and holds the
+sentinel dict as its value, whereas `_apply_changes` (what the property demands) leaves the key absent. -/
+theorem C18_KF_cli_delete (d : Doc) (k : Str) (hk : classify k = .top) :
+    lookupTop k (cliApply d [(k, deleteSentinel)]).nodes = some (.dict [(Gen.deleteOpKey, .str Gen.deleteOpVal)])
+      ∧ lookupTop k (applyChanges d [(k, deleteSentinel)]).nodes = none := by
+  have hdel : isDel deleteSentinel = true := by decide
+  constructor
+  · simp [cliApply, cliChange, hk, cliSetTop, lookupTop_setTop_self, deleteSentinel, rawVal, rawPairs]
+  · simp [applyChanges, applyChange, hk, hdel, lookupTop_delTop_self]
+
+/-- companion of F28 (class kf_cli_meta_replace): the CLI REPLACES META by the request dict. -/
+theorem C18_KF_cli_meta_replace (d : Doc) (key : Str) (pairs : List (Str × JVal)) (hk : classify key = .metaWhole) :
+    (cliApply d [(key, .obj pairs)]).«meta» = rawPairs pairs := by
+  simp [cliApply, cliChange, hk]
+
+/-- companion of F28 (class kf_cli_container_value): lists reach the AST as raw Python lists. -/
+theorem C18_KF_cli_raw_list (d : Doc) (k : Str) (items : List JVal) (hk : classify k = .top) :
+    lookupTop k (cliApply d [(k, .list items)]).nodes = some (.py (.list items))
+      ∧ lookupTop k (applyChanges d [(k, .list items)]).nodes = some (.list (normalizeList items)) := by
+  constructor
+  · simp [cliApply, cliChange, hk, cliSetTop, lookupTop_setTop_self, rawVal]
+  · simp [applyChanges, applyChange, hk, isDel, normalize, lookupTop_setTop_self]
+
+/-- F39 (kf_map_relayout) in the emitter model: a map written by a value request (`InlineMap`, one line)
+and the same map as the parser returns it (a list of single-pair maps) have different layouts. -/
+theorem C18_KF_map_relayout (E : Env) (k : Str) (ind : Nat) (hk : k.head? ≠ some '\n') :
+    emitValue E (.map [(k, .null)]) ind ≠ emitValue E (.list [.map [(k, .null)]]) ind := by
+  have h1 : emitValue E (.map [(k, .null)]) ind = ['['] ++ (k ++ [':', ':'] ++ E.scalar .null) ++ [']'] := by
+    simp [emitValue, pairParts, forceQuote, joinWith]
+  have h2 : ∃ rest, emitValue E (.list [.map [(k, .null)]]) ind = '[' :: '\n' :: rest := by
+    simp [emitValue, needsMultiline, needsMultilineFrom, anyPresent, Val.isAbsent, multilineText, mlParts, pairParts,
+      forceQuote, joinWith, withCommas]
+  obtain ⟨rest, h2⟩ := h2
+  rw [h1, h2]
+  intro h
+  cases k with
+  | nil => simp at h
+  | cons c cs =>
+    simp only [List.cons_append, List.nil_append, List.cons.injEq, true_and] at h
+    exact hk (by simp [h.1])
+
+/-! ## Non-vacuity: concrete instances that meet the hypotheses -/
+
+section Examples
+
+def exEnv : Env where
+  scalar := fun v => match v with
+    | .null => "null".toList
+    | .bool true => "true".toList
+    | .bool false => "false".toList
+    | .int i => (if i < 0 then '-' :: Nat.toDigits 10 i.natAbs else Nat.toDigits 10 i.natAbs)
+    | .str [] => "\"\"".toList
+    | .str s => s
+    | .opaque t => t
+    | _ => "?".toList
+  quoted := fun s => '"' :: s ++ ['"']
+  isAnnotation := fun _ => false
+  alwaysQuote := fun k => k == "PATTERN".toList
+
+def exDoc : Doc :=
+  { name := "DOC".toList, «meta» := [("TYPE".toList, .str "SPEC".toList), ("VERSION".toList, .int 1)],
+    nodes := [.assign ["first".toList] "A".toList (.int 1) (some "tr".toList), .assign [] "B".toList (.str "x".toList) none,
+              .block [] "BLK".toList none [.assign [] "A".toList (.int 7) none], .assign [] "A".toList (.int 2) none] }
+
+-- classification of keys (hypotheses `classify k = …` are satisfiable, and the near-misses go the right way)
+example : classify "A".toList = .top ∧ classify "META.X".toList = .metaField "X".toList ∧ classify "META".toList = .metaWhole
+    ∧ classify "METAX".toList = .top ∧ classify "XMETA.Y".toList = .top ∧ classify "meta.x".toList = .top := by decide
+example : isDel deleteSentinel = true ∧ isDel (.obj [("$op".toList, .str "delete".toList)]) = false
+    ∧ isDel (.obj [("op".toList, .str "DELETE".toList)]) = false ∧ isDel (.list [deleteSentinel]) = false
+    ∧ isDel (.obj [("x".toList, .int 1), ("$op".toList, .str "DELETE".toList)]) = true := by decide
+
+-- C18_absent_silent: a document with Absent at six kinds of site, not in the F40 class
+def exAbsentDoc : Doc :=
+  { name := "D".toList, «meta» := [("X".toList, .absent), ("Y".toList, .dict [("a".toList, .absent), ("b".toList, .int 1)])],
+    nodes := [.assign [] "A".toList .absent none,
+              .block [] "B".toList none [.assign ["c".toList] "C".toList .absent none, .assign [] "D".toList (.list [.absent, .int 1, .map [("k".toList, .absent)]]) none],
+              .sect [] "1".toList "S".toList none [.assign [] "E".toList .absent none]] }
+example : KF_meta_all_absent exAbsentDoc = false := by decide
+example : String.ofList (emitText exEnv exAbsentDoc) = "===D===\nMETA:\n  Y:\n    b::1\nB:\n  D::[1]\n§1::S\n===END===\n" := by decide
+-- tri-state hypotheses hold for the example renderer
+example : exEnv.scalar .null ≠ exEnv.scalar (.str []) ∧ exEnv.scalar .null ≠ ['[', ']'] ∧ exEnv.scalar (.str []) ≠ ['[', ']']
+    ∧ (exEnv.scalar (.str [])).head? = some '"' := by decide
+-- frame / delete / set / null on a document with a duplicated key and a block of the same name
+example : (applyChange exDoc ("A".toList, deleteSentinel)).nodes
+    = [.assign [] "B".toList (.str "x".toList) none, .block [] "BLK".toList none [.assign [] "A".toList (.int 7) none]] := rfl
+example : (applyChange exDoc ("A".toList, .null)).nodes
+    = [.assign ["first".toList] "A".toList .null (some "tr".toList), .assign [] "B".toList (.str "x".toList) none,
+       .block [] "BLK".toList none [.assign [] "A".toList (.int 7) none], .assign [] "A".toList (.int 2) none] := rfl
+example : (applyChange exDoc ("NEW".toList, .list [.str [], .null])).nodes
+    = exDoc.nodes ++ [.assign [] "NEW".toList (.list [.str [], .null]) none] := rfl
+-- META merge keeps the unmentioned field and its position; META{…} with a nested DELETE
+example : (applyChange exDoc ("META".toList, .obj [("VERSION".toList, deleteSentinel), ("NEW".toList, .null)])).«meta»
+    = [("TYPE".toList, .str "SPEC".toList), ("NEW".toList, .null)] := rfl
+example : (applyChange exDoc ("META.TYPE".toList, .int 5)).«meta» = [("TYPE".toList, .int 5), ("VERSION".toList, .int 1)] := rfl
+-- a history of three requests and the spec fold
+example : lookupTop "A".toList (applyRequests exDoc
+    [{ changes := [("A".toList, .int 5)] }, { changes := [("A".toList, deleteSentinel)] }, { changes := [("A".toList, .str [])] }]).nodes
+    = some (.str []) := rfl
+-- F28 on a concrete document: the CLI keeps the key, the MCP path removes it
+example : hasAssign "B".toList (cliApply exDoc [("B".toList, deleteSentinel)]).nodes = true
+    ∧ hasAssign "B".toList (applyChanges exDoc [("B".toList, deleteSentinel)]).nodes = false := by decide
+-- the CLI drops the unmentioned META field TYPE
+example : (cliApply exDoc [("META".toList, .obj [("VERSION".toList, .int 2)])]).«meta» = [("VERSION".toList, .int 2)] := rfl
+
+end Examples
 
 end Octave.C18
